@@ -297,7 +297,7 @@ def cmd_one(pid, seed, params):
     sc = Scratch()
     try:
         binp = prepare(sc, props[pid]["pkg"])
-        env = dict(ENV, VERIF_PROP=pid, VERIF_ONE=str(seed), VERIF_PARAMS=params, VERIF_FS=sc.fs, GOMAXPROCS="2", VERIF_TIER=os.environ.get("VERIF_TIER", "quick"), VERIF_TWICE=os.environ.get("VERIF_TWICE", ""), VERIF_PRE=os.environ.get("VERIF_PRE", ""))
+        env = dict(ENV, VERIF_PROP=pid, VERIF_ONE=str(seed), VERIF_PARAMS=params, VERIF_FS=sc.fs, GOMAXPROCS="2", VERIF_TIER=os.environ.get("VERIF_TIER", "quick"), VERIF_TWICE=os.environ.get("VERIF_TWICE", ""), VERIF_PRE=os.environ.get("VERIF_PRE", ""), VERIF_DUMP=os.environ.get("VERIF_DUMP", ""))
         r = subprocess.run([binp, "-test.run", TESTRE, "-test.count", "1"], env=env, cwd=sc.fs)
         return 0
     finally:
@@ -326,7 +326,13 @@ def cmd_selftest(pid, n):
             sigs.setdefault(h, []).append("%s/%d" % (gmp, k))
         print("selftest %s: %d processes, %d distinct signatures" % (pid, len(procs), len(sigs)))
         if len(sigs) != 1:
-            for h, who in sigs.items(): print(" ", h[:16], who)
+            for h, who in list(sigs.items())[:6]: print(" ", h[:16], who)
+            # which runs differ (line k of the hash log is run k of the shard)
+            logs = [open(o + ".hashes").read().splitlines() for _, _, o, _ in procs]
+            bad = sorted(set(i for l in logs[1:] for i in range(min(len(l), len(logs[0]))) if l[i] != logs[0][i]))
+            print("  runs whose event hash differs between processes: %s%s" % (bad[:20], " ..." if len(bad) > 20 else ""))
+            for i in bad[:3]:
+                print("   run %d: %s" % (i, sorted(set(l[i] for l in logs if i < len(l)))[:4]))
             return 2
         return 0
     finally:
